@@ -677,9 +677,12 @@ func (k *walker) body(fn int) {
 		return
 	}
 	si := len(k.w.Sites) - 1
-	old := k.enter(si, uint64(sz))
+	// The local declarations are read content-driven (a sequential decoder sums the run
+	// lengths before it compares anything with the body size); the instructions are
+	// confined to what is left of the declared body.
+	bodyEnd := uint64(k.pos) + uint64(sz)
+	k.frames = append(k.frames, si)
 	k.fn = fn
-	bodyEnd := k.end
 	nd := k.u32(kLocalDeclN)
 	var sum uint64
 	first := -1
@@ -696,18 +699,23 @@ func (k *walker) body(fn int) {
 	k.w.LocalSec = append(k.w.LocalSec, k.sec)
 	k.w.LocalSum = append(k.w.LocalSum, sum)
 	k.w.LocalOff = append(k.w.LocalOff, first)
-	localsBad := k.bad
-	for !k.bad && k.pos < k.end {
-		k.instr()
+	trunc := k.bad || uint64(k.pos) > bodyEnd || bodyEnd > uint64(k.end)
+	if !trunc {
+		old := k.end
+		k.end = int(bodyEnd)
+		for !k.bad && k.pos < k.end {
+			k.instr()
+		}
+		k.end = old
+		// an instruction that cannot be read is the validator's business, not the
+		// framing's: the body still ends where its size field says
+		k.bad = false
+		k.pos = int(bodyEnd)
 	}
 	k.fn = -1
-	trunc := uint64(k.pos) > uint64(bodyEnd) || uint64(off)+uint64(sz) > uint64(old) // declared size runs past the input
-	k.leave(old)
-	// an instruction that cannot be read is the validator's business, not the
-	// framing's: the body still ends where its size field says
-	k.bad = localsBad || trunc
-	if !k.bad {
-		k.pos = bodyEnd
+	k.frames = k.frames[:len(k.frames)-1]
+	if trunc {
+		k.bad = true
 	}
 }
 
@@ -732,11 +740,12 @@ func (k *walker) custom() {
 	// subsection size is subtracted after the content was read content-driven, in
 	// unsigned arithmetic, so a subsection that overshoots makes the budget wrap and the
 	// rest of the input is read as name subsections too.
-	limit := uint64(payEnd - k.pos)
-	if k.pos > payEnd {
+	declEnd := uint64(k.w.Secs[k.sec].PayOff) + uint64(k.w.Secs[k.sec].Size) // declared, not clamped to the input
+	if uint64(k.pos) > declEnd {
 		k.bad = true
 		return
 	}
+	limit := declEnd - uint64(k.pos)
 	for !k.bad && limit > 0 {
 		if k.pos >= k.end {
 			return // end of input where a subsection id is expected: the section ends
